@@ -12,6 +12,9 @@
          packet carries the toggle the host expects;
      V4  a packet the host takes is a prefix of the pending stream, has a `last` byte at most at its end, and is
          zero-length if a ZLP is owed; a ZLP is owed exactly after a full-size packet ending in a `last` byte.
+     V5  a packet that is not a retry is full-size, or ends in a `last` byte, or is the owed ZLP, or flush has been asserted
+         since the previous packet completed (no premature short packet in mid-transfer);
+     V6  stream.ready is high whenever the pending stream holds fewer than mps bytes and no `last` byte.
    Environment (c11_env): the host ACKs only what it received, once, before its next token; ACK and new_token
    strobes never coincide; no ClearFeature(ENDPOINT_HALT) for this endpoint (C14).  Stream valid/last/flush, tx.ready,
    token timing, lost packets and lost ACKs (ghost bit i_rcv + absent ACK) are unrestricted. *)
